@@ -53,8 +53,10 @@ def fresh_run(job, env, hashseed, snapshot=None, entry="cli", want_after=False, 
                        capture_output=True, text=True, env=child_env(hashseed), timeout=timeout)
     if p.returncode != 0:
         return {"status": "harness-error", "message": p.stderr[-1500:], "files": {},
-                "trace": {"nops": 0, "reads": [], "written": {}, "escapes": []}, "probed": []}
-    return json.loads(p.stdout)
+                "trace": {"nops": 0, "reads": [], "written": {}, "escapes": []}, "probed": [], "env_used": env}
+    r = json.loads(p.stdout)
+    r["env_used"] = env
+    return r
 
 
 def compute_goldens(jobs, seeds, workers=16):
@@ -68,6 +70,19 @@ def compute_goldens(jobs, seeds, workers=16):
         if job.meta.get("cwd_free"):
             jb = job.clone(cwd="/sim/other/cwd")
         g2 = fresh_run(jb, ENV_B, h2)
+        # taint-directed perturbation: every environment variable either run looked up (set or
+        # not) gets an odd value in a third run, which must still produce the same bytes
+        names = sorted(set(k[len("environ:"):] for g in (g1, g2) for k in (g.get("env_reads") or {})
+                           if k.startswith("environ:") and k != "environ:*"))
+        if names and g1.get("status") == "ok" and g2.get("status") == "ok" and g1["files"] == g2["files"]:
+            env3 = dict(ENV_B)
+            env3["environ"] = dict(ENV_B["environ"])
+            for i, n in enumerate(names):
+                env3["environ"][n] = "shroud-sim-perturbed-%d" % i
+            g3 = fresh_run(jb, env3, h2)
+            g3["perturbed_environment"] = names
+            if g3.get("status") != "ok" or g3["files"] != g2["files"]:
+                g2 = g3  # reported as golden instability
         return job.id, g1, g2
 
     out = {}
